@@ -4,6 +4,7 @@ import (
 	"encoding/json"
 	"fmt"
 	"math/rand"
+	"os"
 	"path/filepath"
 	"regexp"
 	"runtime"
@@ -264,4 +265,200 @@ func checkC20(c *Ctx) {
 
 func init() {
 	checks["C20"] = checkC20
+}
+
+type ProcRec struct {
+	NArgs  int    `json:"nargs"`
+	ExtOK  bool   `json:"extOK"`
+	FileOK bool   `json:"fileOK"`
+	Class  string `json:"class"`
+	Exit   int    `json:"exit"`
+	Ran    bool   `json:"ran"`
+	Msg    bool   `json:"msg"`
+	Lines  int    `json:"lines"`
+}
+
+// classProgram builds a multi-line program of the given outcome class with the fault at line `at` (1..3 of 4 statements).
+func classProgram(class string, at int) (src string, wantOut string) {
+	pr := keywordSpelling["print"]
+	lines := []string{pr + " \"one\";", pr + " \"two\";", pr + " \"three\";"}
+	fault := map[string]string{"lexerr": "@", "synerr": pr + " ;", "rterr": pr + " 1 / 0;"}[class]
+	var out []string
+	var src2 []string
+	for i, l := range lines {
+		if class != "clean" && i+1 == at {
+			src2 = append(src2, fault)
+		}
+		src2 = append(src2, l)
+	}
+	if class != "clean" && at > len(lines) {
+		src2 = append(src2, fault)
+	}
+	switch class {
+	case "clean":
+		out = []string{"one", "two", "three"}
+	case "rterr":
+		out = []string{"one", "two", "three"}[:min(at-1, 3)]
+	}
+	w := strings.Join(out, "\n")
+	if len(out) > 0 {
+		w += "\n"
+	}
+	return strings.Join(src2, "\n") + "\n", w
+}
+
+func min(a, b int) int {
+	if a < b {
+		return a
+	}
+	return b
+}
+
+func checkC19(c *Ctx) {
+	// (1) process level: BornoProc explored by TLC, each abstract run instantiated with concrete command lines
+	pout := filepath.Join(c.Work, "proc.ndjson")
+	if res := c.runTLC(TLCJob{Module: "FamProc", Cfg: "FamProc.cfg", OutFile: pout, Timeout: 10 * time.Minute}); res.Err == "" {
+		seen := map[string]bool{}
+		var n int64
+		dir := filepath.Join(c.Work, "cli")
+		os.MkdirAll(filepath.Join(dir, "dir.bn"), 0755)
+		os.MkdirAll(filepath.Join(dir, "sub"), 0755)
+		runnable, _ := classProgram("clean", 0)
+		for _, name := range []string{"a", "a.txt", "a.bn.txt", "a.BN", "a.bnx", "a.b", "bn", "a.bn ", "ok.bn"} {
+			os.WriteFile(filepath.Join(dir, name), []byte(runnable), 0644)
+		}
+		forEachLine(pout, func(line []byte) error {
+			var rec ProcRec
+			if json.Unmarshal(line, &rec) != nil {
+				return nil
+			}
+			key := fmt.Sprintf("%d|%v|%v|%s", rec.NArgs, rec.ExtOK, rec.FileOK, rec.Class)
+			if rec.NArgs != 1 || !rec.ExtOK || !rec.FileOK {
+				key = fmt.Sprintf("%d|%v|%v", rec.NArgs, rec.ExtOK, rec.FileOK && rec.ExtOK)
+			}
+			if seen[key] {
+				return nil
+			}
+			seen[key] = true
+			type inv struct {
+				args  []string
+				out   string
+				stdin string
+			}
+			var invs []inv
+			switch {
+			case rec.NArgs == 0:
+				invs = []inv{{nil, "", ""}}
+			case rec.NArgs >= 2:
+				invs = []inv{{[]string{"ok.bn", "ok.bn"}, "", ""}, {[]string{"a", "b", "c"}[:rec.NArgs], "", ""}, {[]string{"ok.bn", "--help", "x"}[:rec.NArgs], "", ""}}
+			case !rec.ExtOK:
+				for _, nm := range []string{"a", "a.txt", "a.bn.txt", "a.BN", "a.bnx", "a.b", "bn", "a.bn ", "missing", "dir.bn/"} {
+					invs = append(invs, inv{[]string{nm}, "", ""})
+				}
+			case !rec.FileOK:
+				invs = []inv{{[]string{"missing.bn"}, "", ""}, {[]string{"dir.bn"}, "", ""}, {[]string{"ok.bn/x.bn"}, "", ""}, {[]string{"sub/none.bn"}, "", ""}}
+			default:
+				for at := 1; at <= 4; at++ {
+					src, want := classProgram(rec.Class, at)
+					for _, nm := range []string{"p.bn", ".bn", "sub/q.bn", "sp ace.bn", "x.y.bn"} {
+						os.WriteFile(filepath.Join(dir, nm), []byte(src), 0644)
+						invs = append(invs, inv{[]string{nm}, want, "ignored input\n"})
+						cmd := c.runCLIIn(dir, []string{nm}, "ignored input\n", 10*time.Second)
+						n++
+						c.judgeProc(&rec, []string{nm}, want, &cmd, src)
+					}
+					if rec.Class == "clean" {
+						break
+					}
+				}
+				return nil
+			}
+			for _, iv := range invs {
+				cmd := c.runCLIIn(dir, iv.args, iv.stdin, 10*time.Second)
+				n++
+				c.judgeProc(&rec, iv.args, iv.out, &cmd, "")
+			}
+			return nil
+		})
+		c.addInt("traces_validated_against_impl", n)
+		c.addInt("evaluations", n)
+		c.addInt("distinct_nontrivial", int64(len(seen)))
+		c.cov("abstract_runs", len(seen))
+	}
+	// (2) streams and input: FamInput through the executable, with and without a final newline
+	o := &SemOpts{BothStdinEndings: true}
+	iout := filepath.Join(c.Work, "input.ndjson")
+	if res := c.runTLC(TLCJob{Module: "FamInput", Cfg: "FamInput.cfg", OutFile: iout, Timeout: 20 * time.Minute}); res.Err == "" {
+		st := c.replaySemFile(iout, o, 50)
+		c.recordSem("FamInput", st)
+		c.replaySemCLI(iout, o, 1, 10*time.Second)
+	}
+	// (3) the fault families through the executable: exit 70 / 0 and stream separation for every fault kind and position
+	fout := filepath.Join(c.Work, "faults.ndjson")
+	if res := c.runTLC(TLCJob{Module: "FamFaults", Cfg: "FamFaults_quick.cfg", OutFile: fout, Timeout: 20 * time.Minute}); res.Err == "" {
+		every := 4
+		if c.Tier == "thorough" {
+			every = 1
+		}
+		c.replaySemCLI(fout, &SemOpts{}, every, 10*time.Second)
+	}
+	c.cov("exhaustive", true)
+	c.cov("rule", "BornoProc (arguments, extension, file, outcome class, flags, exit status; REPL loop) explored completely by TLC and checked as an inductive invariant by Apalache; every terminal state instantiated with concrete command lines (0..3 arguments, 10 names without a .bn extension, missing file / directory / path through a file, programs of each outcome class with the fault at the first, a middle, the last line, under 5 file names); FamInput: 0..5 input calls (with and without prompt) x 0..4 input lines with surrounding blanks x clean / failing programs, each through the executable with and without a final newline; FamFaults sample for exit 70 and stream separation")
+	c.Ev.Assumptions = []string{"the checks run as root, so an unreadable file is produced by a missing file, a directory and a path through a non-directory", "the usage and extension messages of exit status 64 may be written to either stream"}
+}
+
+func (c *Ctx) runCLIIn(dir string, args []string, stdin string, timeout time.Duration) CLIRun {
+	old := c.Work
+	c.Work = dir
+	defer func() { c.Work = old }()
+	return c.runCLI(args, stdin, timeout)
+}
+
+func (c *Ctx) judgeProc(rec *ProcRec, args []string, wantOut string, r *CLIRun, src string) {
+	what, detail := "", ""
+	switch {
+	case r.Killed:
+		what = "no-termination"
+	case strings.Contains(r.Err, "panic:") || strings.Contains(r.Err, "goroutine "):
+		what, detail = "abnormal-termination", clip(r.Err, 200)
+	case rec.Exit == 1 && r.Exit == 0, rec.Exit != 1 && r.Exit != rec.Exit:
+		what, detail = fmt.Sprintf("exit:%d->%d", rec.Exit, r.Exit), fmt.Sprintf("stdout %q stderr %q", clip(r.Out, 80), clip(r.Err, 80))
+	case rec.NArgs == 0:
+		if r.Err != "" {
+			what, detail = "stderr-in-empty-session", clip(r.Err, 100)
+		}
+	case rec.Msg:
+		if r.Out == "" && r.Err == "" {
+			what = "no-message"
+		} else if strings.Contains(r.Out, "one") {
+			what, detail = "program-executed", clip(r.Out, 100)
+		}
+	default:
+		if r.Out != wantOut {
+			what, detail = "stdout", fmt.Sprintf("stdout %q, expected %q", clip(r.Out, 100), wantOut)
+		} else if (rec.Exit == 0) != (r.Err == "") {
+			what, detail = "stderr", fmt.Sprintf("exit %d with stderr %q", r.Exit, clip(r.Err, 100))
+		} else if rec.Exit != 0 && !strings.Contains(r.Err, "[line ") {
+			what, detail = "no-line-in-diagnostic", clip(r.Err, 100)
+		}
+	}
+	if what != "" {
+		cls := fmt.Sprintf("args%d", rec.NArgs)
+		if rec.NArgs == 1 {
+			switch {
+			case !rec.ExtOK:
+				cls = "bad-extension"
+			case !rec.FileOK:
+				cls = "unreadable"
+			default:
+				cls = rec.Class
+			}
+		}
+		c.violation("C19|proc|"+cls+"|"+what, strings.Join(args, " "), map[string]interface{}{"mode": "cli", "args": args, "src": src, "expected": rec, "detail": detail,
+			"observed": map[string]interface{}{"out": r.Out, "err": r.Err, "exit": r.Exit}})
+	}
+}
+
+func init() {
+	checks["C19"] = checkC19
 }
